@@ -81,6 +81,37 @@ class SymNS:
         t = G.lift(t)
         return GTensor(t.axes, X.func("abs", t.body), t.dtype)
 
+    def unabs(self, t):
+        """t == abs(E) (a single abs atom): returns E, so that an obligation `E == sum of squares` also gives abs(E) == E"""
+        t = G.lift(t)
+        ts = t.body.terms
+        if len(ts) == 1 and ts[0].coef == 1 and not ts[0].bound and len(ts[0].facs) == 1:
+            a, e = ts[0].facs[0]
+            if a[0] == "F" and a[1] == "abs" and e == 1:
+                return GTensor(t.axes, X.rename_apart(a[2][0]), t.dtype)
+        return t
+
+    def resolve_abs(self, t, candidates):
+        """Replace abs(A) by A for every abs atom whose argument is proved (canonical form) equal to one of the candidate
+        tensors, each of which is a sum of squares by construction (built with sumsq)."""
+        t = G.lift(t)
+        keys = [X.expr_key(G.lift(c).body) for c in candidates]
+
+        def fix_term(term):
+            out = [X.Term(term.coef, term.bound, [])]
+            for a, e in term.facs:
+                rep = None
+                if a[0] == "F" and a[1] == "abs" and X.expr_key(a[2][0]) in keys:
+                    rep = X.rename_apart(a[2][0]).power(e) if e.denominator == 1 and e > 0 else X.Expr([X.Term(1, (), [(("P", a[2][0]), e)])])
+                fac = rep if rep is not None else X.Expr([X.Term(1, (), [(a, e)])])
+                out = [X.t_mul(x, y) for x in out for y in fac.terms]
+            return out
+        terms = []
+        for term in t.body.terms:
+            for s_ in X.simplify_term(term):
+                terms.extend(fix_term(s_))
+        return GTensor(t.axes, X.Expr(terms), t.dtype)
+
     def sumsq(self, t):
         """sum of |t|^2 over all entries (a scalar)"""
         t = G.inst(G.lift(t))
@@ -146,6 +177,15 @@ class NumNS:
         self.rng = rng
         self.complex = complex_
         self.inputs = {}
+        self.recorded = {}
+        self._cnt = {}
+
+    def record(self, prefix, value):
+        """native counterpart of an opaque tensor: stubs record what the real dependency returned, in call order"""
+        k = self._cnt.get(prefix, 0)
+        self._cnt[prefix] = k + 1
+        self.recorded[f"{prefix}#{k}"] = np.array(value, copy=True)
+        return value
 
     def _c(self, s):
         return builtins.int(SInt.lift(s).subs(self.env))
@@ -195,6 +235,12 @@ class NumNS:
 
     def abs(self, t):
         return np.abs(t)
+
+    def unabs(self, t):
+        return t
+
+    def resolve_abs(self, t, candidates):
+        return t
 
     def sumsq(self, t):
         return np.sum(np.abs(t) ** 2)
